@@ -145,7 +145,7 @@ theorem xpre_spec (hc : CertFacts g x.t cert) (hx : XFacts g x cert xc) {inp : I
       · intro hz
         have hz' : (inp.tok (xidx c)).sym = 0 := by rw [ha1, hz]; rfl
         refine (xidx_next (tk := inp.tok (xidx c))
-          (by simp only [hz', ne_eq, not_true_eq_false, if_false, hnx])).trans ?_
+          (by simp only [hz', ne_eq, not_true_eq_false, if_false])).trans ?_
         show c1.pos - 1 = xidx c
         omega
   | reduce r =>
